@@ -314,6 +314,100 @@ def check_protocol(case, ctx):
                 _binom(ctx, int((tax[0][:, j] == 1).sum()), tax.shape[1], 0.5, "b.segregation_half_after_selfing", "%s nself=%d marker %d" % (prot, case["nself"], j))
 
 
+# ---- partly homozygous parents ---------------------------------------------------------------------------------
+# Where the parent is homozygous the transmitted copy cannot be read, but crossovers there still decide which copy is
+# transmitted further down the chromosome: between consecutive *heterozygous* markers i < k the copy changes with
+# probability (1 - prod_{j=i+1..k} (1 - 2 x_j)) / 2 (independent crossovers), whatever lies between them.
+@st.composite
+def homozygous_case(draw):
+    lay = draw(layout(pmax=12))
+    p = lay["p"]
+    hom = [draw(st.sampled_from([False, True, True])) for _ in range(p)]
+    # at least two heterozygous markers, by construction
+    idx = draw(st.lists(st.integers(0, p - 1), min_size=2, max_size=2, unique=True))
+    for j in idx:
+        hom[j] = False
+    return {"lay": lay, "hom": hom, "homval": [draw(st.integers(0, 1)) for _ in range(p)],
+            "target": draw(st.sampled_from(["mat_meiosis", "dense_meiosis", "TwoWay", "Self", "TwoWayDH"])),
+            "rng": draw(gens.rng_spec(scripted=False))}
+
+
+def check_homozygous(case, ctx):
+    lay = case["lay"]
+    p = lay["p"]
+    N = N_GAMETES[_TIER["tier"]]
+    pg, xo, genpos, starts = realise_layout(lay, 2)
+    decl = declared_xoprob(lay, starts)
+    check_declared(ctx, xo, decl)
+    hom = case["hom"]
+    het = [j for j in range(p) if not hom[j]]
+    # parent 0: copy 0 carries 0 and copy 1 carries 1 at heterozygous markers; both carry the same allele elsewhere
+    geno = numpy.zeros((2, 2, p), dtype="int8")
+    for j in range(p):
+        if hom[j]:
+            geno[:, :, j] = case["homval"][j]
+        else:
+            geno[1, :, j] = 1
+    ctx.label(case["target"])
+    ctx.label("homozygous_marker_between_heterozygous_ones", any(hom[j] for j in range(het[0], het[-1])))
+    ctx.label("first_marker_homozygous", hom[0])
+    ctx.nontrivial(any(hom[j] for j in range(het[0], het[-1])) and any(0.0 < decl[j] < 0.5 for j in range(het[0] + 1, het[-1] + 1)))
+    rng = gens.build_rng(case["rng"])
+    t = case["target"]
+    if t.endswith("meiosis"):
+        fn = mate_util.mat_meiosis if t == "mat_meiosis" else core_mate.dense_meiosis
+        streams = [(t, fn(geno, numpy.zeros(N, dtype="int64"), xo, rng).astype("int64"))]
+    else:
+        cls = PROTOCOLS[t][0]
+        pg2 = DensePhasedGenotypeMatrix(mat=geno, vrnt_chrgrp=pg.vrnt_chrgrp, vrnt_phypos=pg.vrnt_phypos, vrnt_xoprob=xo)
+        pg2.group_vrnt()
+        xc = numpy.array([[0, 1][:PROTOCOLS[t][1]]], dtype="int64")
+        out = cls(rng=rng).mate(pg2, xc, N // 2 if t == "TwoWayDH" else 1, 1 if t == "TwoWayDH" else N // 2, nself=0).mat.astype("int64")
+        if t == "TwoWayDH":
+            # both parents have the same genotype: the F1 is (gamete of 0, gamete of 1); a DH of it is not readable by
+            # founder, so only the marginal clause applies here
+            streams = [("TwoWayDH progeny", out[0])]
+        else:
+            streams = [(t + " phase0", out[0]), (t + " phase1", out[1])]
+    for what, S in streams:
+        n_obs = S.shape[0]
+        if t != "TwoWayDH":
+            for a, b in zip(het[:-1], het[1:]):
+                prod = 1.0
+                for j in range(a + 1, b + 1):
+                    prod *= (1.0 - 2.0 * decl[j])
+                r = 0.5 * (1.0 - prod)
+                _binom(ctx, int((S[:, a] != S[:, b]).sum()), n_obs, r, "h.recombination_across_homozygous_markers",
+                       "%s heterozygous markers %d,%d (homozygous between: %s)" % (what, a, b, [j for j in range(a + 1, b) if hom[j]]))
+        if decl[0] == 0.5:
+            for a in het:
+                _binom(ctx, int(S[:, a].sum()), n_obs, 0.5, "h.segregation_half_at_heterozygous_marker", "%s marker %d" % (what, a))
+
+
+# ---- one large call -------------------------------------------------------------------------------------------------
+def large_cases(tier):
+    return [{"kernel": k, "p": 2048, "n": 4500, "seed": s} for k, s in (("mat_meiosis", 3), ("dense_meiosis", 4))]
+
+
+def check_large(case, ctx):
+    """Gametes of one call are independent draws: with 2047 intervals at probability 0.1 the chance that two of 4500 gametes
+    share their complete crossover pattern is below 1e-160, so all patterns must be distinct (a generator block that is
+    reused inside one call repeats them)."""
+    p, n = case["p"], case["n"]
+    fn = mate_util.mat_meiosis if case["kernel"] == "mat_meiosis" else core_mate.dense_meiosis
+    geno = gens.tagged_geno(1, p)
+    xo = numpy.full(p, 0.1)
+    xo[0] = 0.5
+    out = fn(geno, numpy.zeros(n, dtype="int64"), xo, numpy.random.default_rng(case["seed"]))
+    ctx.nontrivial(True)
+    ctx.label(case["kernel"])
+    pat = set(numpy.packbits(out.astype("uint8"), axis=1)[i].tobytes() for i in range(n))
+    ctx.check(len(pat) == n, "f.gametes_of_one_large_call_repeat", lambda: "%d gametes, %d distinct crossover patterns" % (n, len(pat)))
+    sw = (out[:, 1:] != out[:, :-1]).sum(0)
+    z = (sw - n * 0.1) / math.sqrt(n * 0.1 * 0.9)
+    _binom(ctx, int(sw.sum()), n * (p - 1), 0.1, "a.interval_frequency", "pooled over %d intervals" % (p - 1))
+
+
 def _set_tier(tier):
     _TIER["tier"] = tier
 
@@ -342,4 +436,12 @@ SUBCHECKS = [
     SubCheck("protocols", _wrap(check_protocol), protocol_case(), quick=20, thorough=40, shards_quick=8, shrink_s=8, max_rounds=2,
              rule="generated (mating protocol, layout as above, nself 0/1/2, one mating vs many matings); 10000/100000 progeny per "
                   "case, every readable gamete stream tested; non-trivial as above"),
+    SubCheck("homozygous", _wrap(check_homozygous), homozygous_case(), quick=10, thorough=30, shards_quick=8, shrink_s=8, max_rounds=2,
+             rule="generated layout + a parent that is homozygous at a generated subset of markers (>= 2 heterozygous ones kept), meiosis "
+                  "kernels and TwoWay/Self/TwoWayDH protocols; recombination between consecutive heterozygous markers against the "
+                  "product formula over all intervening intervals, segregation 1/2; non-trivial = a homozygous marker between two "
+                  "heterozygous ones with a crossover probability in (0, 0.5) on the way"),
+    SubCheck("large_call", check_large, cases=large_cases, shards_quick=2, shards_thorough=2,
+             rule="finite: one call of each meiosis kernel for 4500 gametes x 2048 markers (more than 2**23 uniform draws): all "
+                  "crossover patterns distinct, pooled interval frequency"),
 ]
